@@ -6,6 +6,7 @@
 //   driver number|string ...                                     -- as text, plus the witness texts of that branch
 //   driver witness                                                 -- fixed witness texts for the known defect classes
 // exit 1 = a postcondition of the property is violated on the real code, 0 = holds, 2 = usage.
+#include <errno.h>
 #include <cmath>
 #include <memory>
 #include <stdexcept>
@@ -171,9 +172,16 @@ struct Ref {
       }
       string num = t.substr(s, p - s);
       if (isint) {
-        size_t digits = num.size() - (neg ? 1 : 0);
-        if (digits > 18) out_of_range_number = true;
-        v.k = RV::INT; v.i = strtoll(num.c_str(), nullptr, 10);
+        // an integer numeral inside the int64 range is that integer; outside it (still a number in double range, e.g.
+        // 100000000000000000000) it cannot be an int64 and must not wrap around: the value a reference parser gives it, as a float
+        errno = 0;
+        long long iv = strtoll(num.c_str(), nullptr, 10);
+        if (errno == ERANGE) {
+          v.k = RV::FLT; v.d = strtod(num.c_str(), nullptr);
+          if (!std::isfinite(v.d)) out_of_range_number = true;
+        } else {
+          v.k = RV::INT; v.i = iv;
+        }
       } else {
         v.k = RV::FLT; v.d = strtod(num.c_str(), nullptr);
         if (!std::isfinite(v.d)) out_of_range_number = true;
@@ -356,7 +364,7 @@ int main(int argc, char** argv) {
       for (size_t k = 0; k + len <= 8; k++) { string s = all.substr(k, len); bool dup = false; for (auto& x : texts) dup |= x == s; if (!dup) texts.push_back(s); }
     // counterexamples of loop-contract proofs pass through havocked loop states: the bytes need not drive the real code down the
     // same path; the witness texts of the defect classes of this branch are tried as well
-    if (a.mode == "number") for (const char* w : {"5e-1", "1E+2", "1e30", "-2.5e3", "0x1F", "-0", "12.5"}) texts.push_back(w);
+    if (a.mode == "number") for (const char* w : {"5e-1", "1E+2", "1e30", "-2.5e3", "0x1F", "-0", "12.5", "100000000000000000000", "9223372036854775808", "-9223372036854775809", "-9223372036854775808", "9223372036854775807", "18446744073709551616"}) texts.push_back(w);
     if (a.mode == "string") for (const char* w : {"\"\\n\"", "\"\\u00e9\"", "\"\\u0100\"", "\"\\q\"", "\"a\\/b\""}) texts.push_back(w);
   } else if (a.mode == "list" || a.mode == "dict") {
     string t = from_tokens(a.u("g_tok"), (int)a.u("g_nt"), a.mode == "dict");
